@@ -445,5 +445,76 @@ class TickFold(Contract):
                 P.oblige(f"{pre}.no_readings.nothing_held.{fld}", z3.BoolVal(obj.fields.get(fld) is v))
 
 
+class ManagedFilterInit(Contract):
+    """runtime.ManagedFilter.__init__(ekf, start_time, state, covariance, calibration_map=None)
+    ensures  establishes what `held` means before the first tick: current_time = start_time, state / covariance are the given objects,
+             _impl is the given filter; nothing else is stored."""
+
+    key = "formak.runtime:ManagedFilter.__init__"
+    prefix = "C11.py.ManagedFilter.__init__"
+
+    def setup(self, I):
+        P = I.path
+        mod = I.load_module("formak.runtime")
+        cls = I.module_attr(mod, "ManagedFilter")
+        obj = SObj(cls, {}, "mf")
+        impl = SObj("Impl", {}, "impl")
+        t0 = SReal(P.fresh_real("start_time"))
+        st, cov, cm = SOpaque(z3.Const("state0", z3.DeclareSort("PyEst")), "PyEst"), SOpaque(z3.Const("cov0", z3.DeclareSort("PyEst")), "PyEst"), SObj("Cal", {}, "calibration_map")
+        return Call([obj, impl, t0, st, cov], {"calibration_map": cm}, obj=obj, impl=impl, t0=t0, st=st, cov=cov, cm=cm)
+
+    def post(self, I, call, outcome):
+        P, pre = I.path, self.prefix
+        if outcome[0] == "raise":
+            P.oblige(f"{pre}.no_exception", z3.BoolVal(False), note=f"raises {outcome[1]}")
+            return
+        f = call.obj.fields
+        P.oblige(f"{pre}.held_time_is_the_start_time", to_real(f["current_time"]) == call.t0.z if "current_time" in f else z3.BoolVal(False))
+        P.oblige(f"{pre}.held_estimate_is_the_given_one", z3.BoolVal(f.get("state") is call.st and f.get("covariance") is call.cov))
+        P.oblige(f"{pre}.wraps_the_given_filter", z3.BoolVal(f.get("_impl") is call.impl))
+        P.oblige(f"{pre}.keeps_the_calibration_map", z3.BoolVal(f.get("calibration_map") is call.cm))
+        P.oblige(f"{pre}.stores_nothing_else", z3.BoolVal(set(f) == {"_impl", "current_time", "state", "covariance", "calibration_map"}), note=f"fields {sorted(f)}")
+
+
+class StampedReadingInit(Contract):
+    """runtime.StampedReading.__init__(timestamp, sensor_key, *, _data=None, **kwargs): stores exactly what it is given."""
+
+    key = "formak.runtime:StampedReading.__init__"
+    prefix = "C11.py.StampedReading.__init__"
+
+    def __init__(self, with_data):
+        self.with_data = with_data
+        self.prefix = f"C11.py.StampedReading.__init__[{'data' if with_data else 'named_values'}]"
+
+    def setup(self, I):
+        P = I.path
+        mod = I.load_module("formak.runtime")
+        cls = I.module_attr(mod, "StampedReading")
+        obj = SObj(cls, {}, "reading")
+        ts = SReal(P.fresh_real("timestamp"))
+        data = SObj("Data", {}, "data") if self.with_data else None
+        val = SReal(P.fresh_real("v"))
+        kw = {"_data": data} if self.with_data else {"v": val}
+        return Call([obj, ts, "sensor_a"], kw, obj=obj, ts=ts, data=data, val=val)
+
+    def post(self, I, call, outcome):
+        P, pre = I.path, self.prefix
+        if outcome[0] == "raise":
+            P.oblige(f"{pre}.no_exception", z3.BoolVal(False), note=f"raises {outcome[1]}")
+            return
+        f = call.obj.fields
+        P.oblige(f"{pre}.timestamp", to_real(f["timestamp"]) == call.ts.z if "timestamp" in f else z3.BoolVal(False))
+        P.oblige(f"{pre}.sensor_key", z3.BoolVal(f.get("sensor_key") == "sensor_a"))
+        P.oblige(f"{pre}.data", z3.BoolVal(f.get("_data") is call.data))
+        kw = f.get("kwargs")
+        items = kw.d if isinstance(kw, PyDict) else (kw if isinstance(kw, dict) else None)
+        want = {} if self.with_data else {"v": call.val}
+        P.oblige(f"{pre}.named_values", z3.BoolVal(items is not None and set(items) == set(want) and all(items[k] is want[k] for k in want)), note=f"kwargs {items}")
+
+
+def init_contracts():
+    return [ManagedFilterInit(), StampedReadingInit(True), StampedReadingInit(False)]
+
+
 def tick_contracts():
     return [TickFold(cn, rm) for cn in (False, True) for rm in ("seq", "none")]
